@@ -578,30 +578,13 @@ func (c09) Run(tp *Tape, opt RunOpt) *RunOut {
 		}
 	}
 	_ = taskCurOp
-	// an operation that ended with the timeout error of its own cancelled context either took effect or did not:
-	// every installed value carries a unique token, so what the other operations (and the final reads) returned
-	// decides which. A deref that timed out is a no-op.
+	// an operation that ended with the timeout error of its own cancelled context either took effect or did not
+	// (both are atomic outcomes; which one is not always visible in what others returned): the history is checked
+	// under every assignment, see below. A deref that timed out is a no-op.
 	for _, r := range recs {
-		if !r.timedOut {
-			continue
-		}
-		seen := false
-		for _, o := range recs {
-			if o == r || !o.done || o.atom != r.atom || o.isErr {
-				continue
-			}
-			for _, el := range seqElems(o.out) {
-				if el == r.tok {
-					seen = true
-				}
-			}
-		}
-		if seen && r.in.Kind != "deref" {
-			r.in.AnyOut = true
-			out.Stats["cancelled_operation_took_effect"]++
-		} else {
+		if r.timedOut && r.in.Kind == "deref" {
+			r.timedOut = false
 			r.in = atomIn{Kind: "swap-fail"}
-			out.Stats["cancelled_operation_without_effect"]++
 		}
 	}
 
@@ -699,22 +682,64 @@ func (c09) Run(tp *Tape, opt RunOpt) *RunOut {
 			if ai >= nAtoms && ai < vaBase {
 				continue
 			}
-			var pops []porcupine.Operation
-			if ai >= vaBase {
-				// the vector atoms start as [0 0 0]: an initial installation before everything else
-				pops = append(pops, porcupine.Operation{ClientId: 100000, Input: atomIn{Kind: "swap-vec-init"}, Call: 0, Output: "[0 0 0]", Return: 0})
-			}
-			for i, r := range recs {
-				if r.atom != ai || !r.done {
-					continue
+			// operations cancelled by the injected fault: each either took effect (its return value unconstrained) or
+			// did not; the history is linearizable if it is under at least one assignment
+			var amb []*opRec
+			for _, r := range recs {
+				if r.atom == ai && r.done && r.timedOut {
+					amb = append(amb, r)
 				}
-				pops = append(pops, porcupine.Operation{ClientId: i, Input: r.in, Call: int64(r.call), Output: r.out, Return: int64(r.ret)})
 			}
-			if len(pops) > 60 {
+			if len(amb) > 4 {
+				out.Stats["porcupine_skipped_many_cancelled"]++
+				continue
+			}
+			tooLong := false
+			res := porcupine.Illegal
+			for mask := 0; mask < 1<<uint(len(amb)) && res != porcupine.Ok; mask++ {
+				var pops []porcupine.Operation
+				if ai >= vaBase {
+					// the vector atoms start as [0 0 0]: an initial installation before everything else
+					pops = append(pops, porcupine.Operation{ClientId: 100000, Input: atomIn{Kind: "swap-vec-init"}, Call: 0, Output: "[0 0 0]", Return: 0})
+				}
+				for i, r := range recs {
+					if r.atom != ai || !r.done {
+						continue
+					}
+					in := r.in
+					for k, a := range amb {
+						if a == r {
+							if mask&(1<<uint(k)) != 0 {
+								in.AnyOut = true
+							} else {
+								in = atomIn{Kind: "swap-fail"}
+							}
+						}
+					}
+					pops = append(pops, porcupine.Operation{ClientId: i, Input: in, Call: int64(r.call), Output: r.out, Return: int64(r.ret)})
+				}
+				if len(pops) > 60 {
+					tooLong = true
+					break
+				}
+				r1 := porcupine.CheckOperationsTimeout(atomModel, pops, 10*time.Second)
+				if r1 == porcupine.Ok || (r1 == porcupine.Unknown && res == porcupine.Illegal) {
+					res = r1
+				}
+				if r1 == porcupine.Ok && len(amb) > 0 {
+					for k := range amb {
+						if mask&(1<<uint(k)) != 0 {
+							out.Stats["cancelled_operation_took_effect"]++
+						} else {
+							out.Stats["cancelled_operation_without_effect"]++
+						}
+					}
+				}
+			}
+			if tooLong {
 				out.Stats["porcupine_skipped_long"]++
 				continue
 			}
-			res := porcupine.CheckOperationsTimeout(atomModel, pops, 10*time.Second)
 			switch res {
 			case porcupine.Ok:
 				out.Stats["porcupine_ok"]++
